@@ -84,6 +84,7 @@ func c19Scenarios(tier string) []*Scenario {
 	add("timeout/async-cancel-late-return", []Spec{T(50)}, []ExeSpec{{Script: []Out{{V: 1, Block: true, Dur: 10}}, Async: true, CancelAsync: true, CancelAt: 20}})
 	add("retry(timeout)/async-cancel", []Spec{retry, T(50)}, []ExeSpec{{Script: []Out{{Err: E1, Block: true}}, Async: true, CancelAsync: true, CancelAt: 20}})
 	add("timeout(retry)/async-cancel", []Spec{T(100), retry}, []ExeSpec{{Script: failing, Async: true, CancelAsync: true, CancelAt: 15}})
+	add("hedge/async-cancel-in-delay", []Spec{hedge(1, []Cond{{K: "result", V: 1}})}, []ExeSpec{{Script: []Out{{Err: E1, Dur: 2}}, Async: true, CancelAsync: true, CancelAt: 10}})
 	add("hedge/async-cancel", []Spec{hedge(1, nil)}, []ExeSpec{{Script: []Out{{Err: E1, Block: true, Dur: 15}}, Async: true, CancelAsync: true, CancelAt: 10}})
 	add("fallback/applied", []Spec{{Kind: KFallback, FbV: 9}}, one(failing))
 	add("cache/miss", []Spec{{Kind: KCache, Key: "a"}}, one(ok))
